@@ -230,6 +230,22 @@ class Census:
                 return "INT"
             if STR_NAME.search(e.id):
                 return "STR"
+            # a plain local: the kind of what it is assigned
+            if f is not None:
+                dc = self.__dict__.setdefault("_def_cache", {})
+                if id(f) not in dc:
+                    d_ = {}
+                    for n in walk_no_nested(f):
+                        if isinstance(n, ast.Assign) and len(n.targets) == 1 and isinstance(n.targets[0], ast.Name):
+                            d_.setdefault(n.targets[0].id, []).append(n.value)
+                    dc[id(f)] = d_
+                vals = dc[id(f)].get(e.id, [])
+                if vals:
+                    ks = {self.elem_kind_of_value(v, f, depth + 1) for v in vals}
+                    if "STR" in ks:
+                        return "STR"
+                    if ks == {"INT"}:
+                        return "INT"
             return "UNKNOWN"
         return "UNKNOWN"
 
